@@ -1,6 +1,7 @@
 import SphericalVerif.Props.C09
 import SphericalVerif.Props.HKernel
 import SphericalVerif.Props.GenH
+import SphericalVerif.Props.GenHorner
 #print axioms C09.objd_pure
 #print axioms C09.objD_pure
 #print axioms C09.objY_pure
@@ -17,3 +18,4 @@ import SphericalVerif.Props.GenH
 #print axioms GenH.genH_pure
 #print axioms GenH.genH_size_indep
 #print axioms GenH.tabOK_ranges
+#print axioms GenHorner.gen_evaluate_row
